@@ -164,6 +164,54 @@ def figure_level(ctx, rng, d, ds, ems, polys, centres, gdims, shape, case):
             plt.close(f_)
 
 
+def other_grid_leg(ctx, axes):
+    """Variables that live on another grid of the dataset (mesh nodes or edges, the left / back / node grids of an Arakawa C
+    dataset) have no value per cell: the patches and the arrows are those of the cells, so such a variable is refused - and is
+    never drawn onto the cells, whether or not its grid happens to have as many locations as there are cells."""
+    rng = ctx.rng
+    n_ds = 12 if ctx.tier == 'quick' else 60
+    # a hexagon with two inner nodes, cut into triangles: 8 nodes, 8 faces
+    hex_nodes = [(0, 0), (2, -1), (4, 0), (4, 2), (2, 3), (0, 2), (1, 1), (3, 1)]
+    hex_faces = [[0, 1, 6], [1, 7, 6], [1, 2, 7], [2, 3, 7], [3, 4, 7], [4, 6, 7], [4, 5, 6], [5, 0, 6]]
+    for n in range(n_ds):
+        if n % 4 == 0:
+            d = gen.ugrid(rng, mesh=(hex_nodes, hex_faces), invalid=False, supplied=set() if n % 8 == 0 else None)
+        else:
+            d = gen.any_dataset(rng, ['ugrid', 'shoc_standard'][n % 2])
+        ds = d.ds
+        kinds = d.spec['kinds']
+        with warnings.catch_warnings():
+            warnings.simplefilter('ignore')
+            ems = ds.ems
+            ncell = len(ems.polygons)
+        for kind, kdims in kinds.items():
+            if kind == 'face':
+                continue
+            shape = [ds.sizes[g] for g in kdims] if all(g in ds.sizes for g in kdims) else None
+            if shape is None:
+                continue
+            size = int(numpy.prod(shape))
+            name = f'on_{kind}'
+            ds[name] = xarray.DataArray((numpy.arange(size, dtype='f8') + 5000).reshape(shape), dims=list(kdims))
+            case = {'dataset': d.spec['label'], 'cells': ncell, 'variable_on': str(kind), 'locations': size}
+            same = size == ncell
+            ctx.count(f'other_grid:{d.family}:{kind}:{"as many locations as cells" if same else "another number of locations"}')
+            ctx.case((d.spec['label'], 'other grid', str(kind)), same, sample=case if same and len(ctx.samples) < 4 else None)
+            for how in ('name', 'array'):
+                arg = name if how == 'name' else ds[name]
+                with warnings.catch_warnings():
+                    warnings.simplefilter('ignore')
+                    r = attempt(lambda: ems.make_poly_collection(arg))
+                    rq = attempt(lambda: ems.make_quiver(axes, arg, arg))
+                if r[0] == 'ok':
+                    ctx.report('property', f'a variable on the {kind} grid ({size} locations) was drawn onto the {ncell} cell polygons: '
+                               f'values {numpy.asarray(r[1].get_array(), dtype="f8")[:4].tolist()}... are not values of those cells',
+                               dict(case, given_as=how, through='make_poly_collection'))
+                if rq[0] == 'ok':
+                    ctx.report('property', f'vector components on the {kind} grid ({size} locations) were drawn as arrows at the {ncell} '
+                               f'cell centres', dict(case, given_as=how, through='make_quiver'))
+
+
 def run(ctx):
     rng = ctx.rng
     quick = ctx.tier == 'quick'
@@ -413,6 +461,7 @@ def run(ctx):
         # ---- the figure-level helpers build the same artists: plot_on_figure for one field, animate_on_figure for a series
         if n % 2 == 0:
             figure_level(ctx, rng, d, ds, ems, polys, centres, gdims, shape, dict(case))
+    other_grid_leg(ctx, axes)
     plt.close(fig)
     model = coq_eval_sharded(['Model.Export'], exprs, shard=6, workers=12)
     ctx.leg('collections', len(exprs))
